@@ -91,4 +91,137 @@ def depthE : E → Nat
       if (nodeOf op).2 then max (depthE a) (depthE b + 1) else max (depthE b) (depthE a + 1)
   | _ => 0
 
+/-! ### expressions with side effects on variables: `,` `=` `op=` `++` `--`
+
+`compileX` extends `compileE` by the comma operator, assignment to a variable, the ten compound assignments and prefix /
+postfix `++` `--` on variables, as parse.c rewrites them: `A op= B` is `tmp = &A, *tmp = *tmp op B` with a hidden pointer
+temporary in the frame (`to_assign`); `++A` is `A += 1`, `--A` is `A -= 1`; `A++` is `(T)((A += 1) - 1)`, `A--` is
+`(T)((A += -1) + 1)` (`new_inc_dec`; for `_Bool` operands chibicc uses two temporaries instead: not modelled, `none`).
+The hidden temporaries are numbered in the order parse.c creates them (operands first, left to right); temporary `k`
+lives at `toff k (%rbp)`.  `&&`, `||`, `?:` need jumps: `none`. -/
+
+def iPush : Ins := ⟨"push", [.r "%rax"]⟩
+def iPopRdi : Ins := ⟨"pop", [.r "%rdi"]⟩
+def iLea (d : Int) : Ins := ⟨"lea", [.m d "%rbp", .r "%rax"]⟩
+def iMovImm (v : Int) : Ins := ⟨"mov", [.i (immOf v), .r "%rax"]⟩
+
+/-- `tmp = &A, *tmp = (T)(*tmp op B)` for a variable `A` of type `ti` at `offA(%rbp)`, `B` of type `tb` compiled to `cb`,
+    the pointer temporary at `tmp(%rbp)`; `k` is the node kind of `op` -/
+def opAssignCode (k : NK) (op : BinOp) (ti tb : ITy) (offA tmp : Int) (cb : List Ins) : List Ins :=
+  let t := binopOperandType op ti tb
+  -- tmp = &A
+  [iLea tmp, iPush, iLea offA] ++ storeSeq .u64 ++
+  -- address of *tmp, kept on the stack for the store
+  iLea tmp :: loadSeq .u64 ++ [iPush] ++
+  -- *tmp op B : B (converted), push, *tmp (loaded, converted), pop, operator; then the conversion to A's type
+  (cb ++ (if op.isShift then [] else castSeq tb t)) ++ [iPush] ++
+  (iLea tmp :: loadSeq .u64 ++ loadSeq ti ++ castSeq ti t) ++ [iPopRdi] ++ opSeq k t ++
+  castSeq (binopType op ti tb) ti ++
+  storeSeq ti
+
+/-- the operators that have a compound assignment -/
+def compoundable (op : BinOp) : Bool := !op.isRel
+
+def compileX (tys : List ITy) (off toff : Nat → Int) : Nat → E → Option (ITy × List Ins × Nat)
+  | k, .lit t v => some (t, [iMovImm v], k)
+  | k, .var i => (tys[i]?).map fun t => (t, iLea (off i) :: loadSeq t, k)
+  | k, .cast t e => (compileX tys off toff k e).map fun (te, c, k1) => (t, c ++ castSeq te t, k1)
+  | k, .un op e =>
+      (compileX tys off toff k e).map fun (te, c, k1) =>
+        match op with
+        | .plus => (promote te, c ++ castSeq te (promote te), k1)
+        | .lognot => (.i32, c ++ unSeq .ND_NOT te, k1)
+        | .neg => (promote te, c ++ castSeq te (promote te) ++ unSeq .ND_NEG (promote te), k1)
+        | .bitnot => (promote te, c ++ castSeq te (promote te) ++ unSeq .ND_BITNOT (promote te), k1)
+  | k, .bin op a b =>
+      match compileX tys off toff k a with
+      | some (ta, ca, k1) =>
+        match compileX tys off toff k1 b with
+        | some (tb, cb, k2) =>
+          let (nk, swap) := nodeOf op
+          let (tl, cl, tr, cr) := if swap then (tb, cb, ta, ca) else (ta, ca, tb, cb)
+          let t := binopOperandType op tl tr
+          let rhs := if op.isShift then cr else cr ++ castSeq tr t
+          some (binopType op ta tb, rhs ++ [iPush] ++ cl ++ castSeq tl t ++ [iPopRdi] ++ opSeq nk t, k2)
+        | none => none
+      | none => none
+  | k, .comma a b =>
+      match compileX tys off toff k a with
+      | some (_, ca, k1) => (compileX tys off toff k1 b).map fun (tb, cb, k2) => (tb, ca ++ cb, k2)
+      | none => none
+  | k, .assign i e =>
+      match tys[i]?, compileX tys off toff k e with
+      | some ti, some (te, c, k1) => some (ti, [iLea (off i), iPush] ++ c ++ castSeq te ti ++ storeSeq ti, k1)
+      | _, _ => none
+  | k, .opassign op i e =>
+      match tys[i]?, compileX tys off toff k e with
+      | some ti, some (te, c, k1) =>
+          if compoundable op then some (ti, opAssignCode (nodeOf op).1 op ti te (off i) (toff k1) c, k1 + 1) else none
+      | _, _ => none
+  | k, .preinc i =>
+      (tys[i]?).map fun ti => (ti, opAssignCode .ND_ADD .add ti .i32 (off i) (toff k) [iMovImm 1], k + 1)
+  | k, .predec i =>
+      (tys[i]?).map fun ti => (ti, opAssignCode .ND_SUB .sub ti .i32 (off i) (toff k) [iMovImm 1], k + 1)
+  | k, .postinc i =>
+      match tys[i]? with
+      | some ti =>
+        if ti = .bool then none else
+        let t := binopOperandType .add ti .i32
+        some (ti, [iMovImm (-1)] ++ castSeq .i32 t ++ [iPush] ++
+                  opAssignCode .ND_ADD .add ti .i32 (off i) (toff k) [iMovImm 1] ++ castSeq ti t ++ [iPopRdi] ++
+                  opSeq .ND_ADD t ++ castSeq t ti, k + 1)
+      | none => none
+  | k, .postdec i =>
+      match tys[i]? with
+      | some ti =>
+        if ti = .bool then none else
+        let t := binopOperandType .add ti .i32
+        some (ti, [iMovImm 1] ++ castSeq .i32 t ++ [iPush] ++
+                  opAssignCode .ND_ADD .add ti .i32 (off i) (toff k) [iMovImm (-1)] ++ castSeq ti t ++ [iPopRdi] ++
+                  opSeq .ND_ADD t ++ castSeq t ti, k + 1)
+      | none => none
+  | _, _ => none
+
+/-- stack slots `compileX` needs below `%rsp` -/
+def depthX : E → Nat
+  | .cast _ e | .un _ e => depthX e
+  | .bin op a b => if (nodeOf op).2 then max (depthX a) (depthX b + 1) else max (depthX b) (depthX a + 1)
+  | .comma a b => max (depthX a) (depthX b)
+  | .assign _ e => depthX e + 1
+  | .opassign _ _ e => max (depthX e + 1) 2
+  | .preinc _ | .predec _ => 2
+  | .postinc _ | .postdec _ => 3
+  | _ => 0
+
+/-- variables whose value the evaluation of `e` may read -/
+def rd : E → List Nat
+  | .lit _ _ => []
+  | .var i => [i]
+  | .un _ e | .cast _ e | .assign _ e => rd e
+  | .bin _ a b | .comma a b | .land a b | .lor a b => rd a ++ rd b
+  | .cond c a b => rd c ++ (rd a ++ rd b)
+  | .opassign _ i e => i :: rd e
+  | .preinc i | .predec i | .postinc i | .postdec i => [i]
+
+/-- variables the evaluation of `e` may modify -/
+def wr : E → List Nat
+  | .lit _ _ | .var _ => []
+  | .un _ e | .cast _ e => wr e
+  | .bin _ a b | .comma a b | .land a b | .lor a b => wr a ++ wr b
+  | .cond c a b => wr c ++ (wr a ++ wr b)
+  | .assign i e | .opassign _ i e => i :: wr e
+  | .preinc i | .predec i | .postinc i | .postdec i => [i]
+
+def disjointL (a b : List Nat) : Bool := a.all fun x => !b.contains x
+
+/-- C11 6.5p2 for the operands of a binary operator (which are unsequenced): neither operand modifies a variable the
+    other one reads or modifies.  (`,` sequences its operands; an assignment's store is sequenced after its operands.) -/
+def noConflict : E → Bool
+  | .lit _ _ | .var _ | .preinc _ | .predec _ | .postinc _ | .postdec _ => true
+  | .un _ e | .cast _ e | .assign _ e | .opassign _ _ e => noConflict e
+  | .bin _ a b =>
+      disjointL (wr a) (rd b ++ wr b) && disjointL (wr b) (rd a ++ wr a) && noConflict a && noConflict b
+  | .comma a b | .land a b | .lor a b => noConflict a && noConflict b
+  | .cond c a b => noConflict c && noConflict a && noConflict b
+
 end ChibiVerif.C01
